@@ -378,6 +378,11 @@ write_code(ostream &out_code,ostream * out_include, InterrogateModuleDef *def) {
     out_code << "#include \"dtoolbase.h\"\n"
              << "#include \"interrogate_request.h\"\n"
              << "#include \"dconfig.h\"\n";
+
+  } else if (save_unique_names) {
+    // The table of unique names is written even without a database; it needs
+    // the definition of InterrogateUniqueNameDef.
+    out_code << "#include \"interrogate_request.h\"\n";
   }
 
   ostringstream declaration_bodies;
